@@ -559,6 +559,9 @@ where
         }
         if self.left == 0 {
             if self.repeat.again() {
+                // A trailing partial sample does not belong in front of the
+                // next repetition.
+                self.buf.clear();
                 self.file.seek(std::io::SeekFrom::Start(self.range.0))?;
                 self.left = self.range.1;
             } else {
